@@ -1,6 +1,8 @@
 """Generated architecture / bindings / format option vectors for metrics mode (C11, C12, C14, C13, C15 corpora).
 
 The generator proposes; the compiler disposes: a proposal the compiler rejects is counted as rejected, never judged."""
+import random
+
 from families import mk_yaml
 
 
@@ -39,9 +41,13 @@ def gen_hw(rng):
     if rng.random() < 0.45 and "+" not in exprs[0]:
         r = rng.choice(lo0)
         holders = [t for t in inputs if r in decl[t]]
-        kind = rng.choice(["us", "us", "uo", "us2"])
+        kind = rng.choice(["us", "us", "uo", "us2", "usuo", "uo2"])
         if kind == "uo" and holders:
             part[r] = ["uniform_occupancy(%s.%d)" % (rng.choice(holders), rng.choice([1, 2]))]
+        elif kind == "usuo" and holders:          # a shape split with an occupancy split of its lower level stacked below
+            part[r] = ["uniform_shape(%d)" % rng.choice([3, 4]), "uniform_occupancy(%s.%d)" % (rng.choice(holders), rng.choice([1, 2]))]
+        elif kind == "uo2" and holders:
+            part[r] = ["uniform_occupancy(%s.2)" % rng.choice(holders), "uniform_occupancy(%s.1)" % rng.choice(holders)]
         elif kind == "us2":
             part[r] = ["uniform_shape(4)", "uniform_shape(2)"]
         else:
@@ -203,6 +209,7 @@ def hw_core():
                             "hw": True, "plain_yaml": y, "arch": {}, "cap": 30})
     out += eager_core()
     out += flatten_core()
+    out += stack_core()
     return out
 
 
@@ -224,6 +231,33 @@ def flatten_core():
            "architecture:\n  Accel:\n  - name: System\n    attributes:\n      clock_frequency: 3\n    local:\n    - name: Mrg\n      class: Merger\n      attributes:\n        inputs: 2\n        comparator_radix: 2\n        outputs: 1\n        order: fifo\n        reduce: False\n"
            "bindings:\n  Z:\n  - config: Accel\n    prefix: tmp/Z\n  - component: Mrg\n    bindings:\n    - tensor: A\n      init-ranks: [K, M, P1, P0]\n      final-ranks: [M, K, P1, P0]\n")
     out.append({"yaml": y2 + st2 + hw2, "configs": [{"K": 2, "M": 2, "P": 5}], "family": "hw-core-flatten", "key": "flat-merger", "hw": True, "plain_yaml": y2, "arch": {}, "cap": 8})
+    # a flattened operand, the other operand's rank accessed by lookup (getPayload with a get_payload_<T> trace), bound lazily / eagerly
+    # as payload to a cache and a buffet
+    for style in ("lazy", "eager"):
+        yl = ("einsum:\n  declaration:\n    A: [K, M]\n    B: [K, N]\n    Z: [M, N]\n  expressions:\n    - Z[m, n] = A[k, m] * B[k, n]\nmapping:\n  rank-order:\n    A: [M, K]\n    B: [N, K]\n    Z: [M, N]\n"
+              "  partitioning:\n    Z:\n      (M, K): [flatten()]\n  loop-order:\n    Z: [N, MK]\n")
+        stl = "  spacetime:\n    Z:\n      space: []\n      time: [N, MK]\n"
+        hwl = ("architecture:\n  Accel:\n  - name: System\n    attributes:\n      clock_frequency: 3\n    local:\n    - name: Mem\n      class: DRAM\n      attributes:\n        bandwidth: 5\n"
+               "    subtree:\n    - name: Chip\n      local:\n      - name: L2\n        class: Cache\n        attributes:\n          width: 64\n          depth: 1024\n          bandwidth: 7\n"
+               "      subtree:\n      - name: PE\n        local:\n        - name: RF\n          class: Buffet\n          attributes:\n            width: 64\n            depth: 16\n"
+               "        - name: Mul\n          class: Compute\n          attributes:\n            type: mul\n"
+               "format:\n  A:\n    flat:\n      rank-order: [MK]\n      MK:\n        format: C\n        cbits: 32\n        pbits: 32\n"
+               "  B:\n    dense:\n      rank-order: [N, K]\n      N:\n        format: U\n        pbits: 32\n      K:\n        format: U\n        pbits: 32\n"
+               "bindings:\n  Z:\n  - config: Accel\n    prefix: tmp/flat\n  - component: Mem\n    bindings:\n    - {tensor: A, rank: MK, type: payload, format: flat}\n    - {tensor: B, rank: K, type: payload, format: dense}\n"
+               "  - component: L2\n    bindings:\n    - {tensor: B, rank: K, type: payload, format: dense}\n    - {tensor: B, rank: N, type: payload, format: dense}\n"
+               "  - component: RF\n    bindings:\n    - {tensor: A, rank: MK, type: payload, format: flat, evict-on: N}\n    - {tensor: B, rank: K, type: payload, format: dense, evict-on: N, style: %s}\n"
+               "  - component: Mul\n    bindings:\n    - op: mul\n" % style)
+        out.append({"yaml": yl + stl + hwl, "configs": [{"K": 2, "M": 2, "N": 2}], "family": "hw-core-flatten", "key": "flat-lookup-%s" % style, "hw": True, "plain_yaml": yl, "arch": {}, "cap": 10})
+    # three ranks of the output flattened at once (explicit shape = product of the three extents), alone and with occupancy below
+    for occ in (False, True):
+        y3 = ("einsum:\n  declaration:\n    Z: [M, N, O]\n    A: [M, N, O]\n  expressions:\n    - Z[m, n, o] = A[m, n, o]\nmapping:\n  partitioning:\n    Z:\n      (M, N, O): [flatten()]\n"
+              + ("      MNO: [uniform_occupancy(A.2)]\n" if occ else "") + "  loop-order:\n    Z: [%s]\n" % ("MNO1, MNO0" if occ else "MNO"))
+        st3 = "  spacetime:\n    Z:\n      space: []\n      time: [%s]\n" % ("MNO1, MNO0" if occ else "MNO")
+        rk = ["MNO1", "MNO0"] if occ else ["MNO"]
+        hw3 = ("format:\n  A:\n    default:\n      rank-order: [%s]\n" % ", ".join(rk) + "".join("      %s:\n        format: C\n        pbits: 32\n" % r for r in rk) +
+               "architecture:\n  accel:\n  - name: level0\n    attributes:\n      clock_frequency: 3\n    local:\n    - name: Buffer\n      class: Buffet\n      attributes:\n        width: 64\n        depth: 1024\n"
+               "bindings:\n  Z:\n  - config: accel\n    prefix: tmp/Z\n  - component: Buffer\n    bindings:\n    - tensor: A\n      rank: %s\n      type: payload\n      evict-on: root\n      format: default\n" % rk[-1])
+        out.append({"yaml": y3 + st3 + hw3, "configs": [{"M": 2, "N": 3, "O": 2}], "family": "hw-core-flatten", "key": "flat3-out-%s" % occ, "hw": True, "plain_yaml": y3, "arch": {}, "cap": 10, "dense_bias": True})
     return out
 
 
@@ -346,3 +380,30 @@ def gen_hw_merger_cascade(rng):
     full = y + arch + b
     return {"yaml": full, "configs": [{"K": 5, "M": 2, "N": 2}], "family": "hw-merger-cascade", "key": full, "hw": True, "plain_yaml": mk_yaml(decl, exprs, part=part, lo=lo),
             "arch": {}, "cap": 16}
+
+
+_STACK_CORE = None
+
+
+def stack_core(n=5):
+    """Fixed core: metrics-mode specifications with a buffer binding and a shape split that has an occupancy split stacked below it (or two
+    occupancy levels): the first n that the compiler accepts among gen_hw under fixed generator seeds (so the set is the same on every run)."""
+    global _STACK_CORE
+    if _STACK_CORE is None:
+        import execpipe
+        out = []
+        for i in range(600):
+            sp = gen_hw(random.Random(7000 + i))
+            y = sp["yaml"]
+            mixed = ("uniform_shape" in y and "uniform_occupancy" in y) or y.count("uniform_occupancy") >= 2
+            if not (mixed and "component: Buf" in y):
+                continue
+            try:
+                execpipe.compile_text(y, hw=True)
+            except Exception:
+                continue
+            out.append(dict(sp, family="hw-core-stack", key="stack%d" % i))
+            if len(out) >= n:
+                break
+        _STACK_CORE = out
+    return [dict(sp) for sp in _STACK_CORE]
